@@ -1,4 +1,4 @@
-(* Model of the evaluator classes of artap/operators.py (lines 38-197, the repaired code):
+(* Model of the evaluator classes of artap/operators.py (lines 38-197, the repaired code: F2, F11):
    Evaluator (base), WorstCaseEvaluator and GradientEvaluator, as used through
    Algorithm.evaluate with EvaluatorType.WORST_CASE / GRADIENT, serial path (max_processes = 1).
 
@@ -174,7 +174,7 @@ Section Evaluators.
   Definition wc_post (h : heap) (id : nat) : heap :=
     let d := h_get h id in
     let x := wc_sens h d in
-    if S m <? length (d_costs d)
+    if S m <=? length (d_costs d)                   (* len(individual.costs) >= self.n, the F11 repair *)
     then hupd h id (set_sens d (set_last x (d_costs d)) (set_m2 (SV x) (d_signed d)) x)
     else hupd h id (set_sens d (d_costs d ++ [x]) (insert_m1 (SV x) (d_signed d)) x).
 
@@ -254,9 +254,81 @@ Section Evaluators.
                      end
         end
     end.
+  (* ---- histories in which a batch may also contain designs that are not fresh ----
+     New v : Individual(v), created by the algorithm for this batch;
+     Pre v : Individual(v) that has been evaluated by a plain Evaluator (Job.evaluate) before it is
+             submitted: state EVALUATED, plain costs, never post-processed;
+     Old k : the k-th design created so far in the run (counting New and Pre items of EARLIER
+             batches, from 0), handed to evaluate() once more. *)
+  Inductive item := New (v : list T) | Pre (v : list T) | Old (k : nat).
+
+  (* result: heap and log, the cells of the batch in order, the cells created for it *)
+  Fixpoint mk_batch (hl : heap * list (list T)) (created : list nat) (items : list item)
+    : (heap * list (list T)) * list nat * list nat :=
+    match items with
+    | [] => (hl, [], [])
+    | New v :: r =>
+        let '(id, h1) := alloc (fst hl) v in
+        let '(hl2, ids, nw) := mk_batch (h1, snd hl) created r in (hl2, id :: ids, id :: nw)
+    | Pre v :: r =>
+        let '(id, h1) := alloc (fst hl) v in
+        let '(hl2, ids, nw) := mk_batch (job (h1, snd hl) id) created r in (hl2, id :: ids, id :: nw)
+    | Old k :: r =>
+        let '(hl2, ids, nw) := mk_batch hl created r in (hl2, nth k created 0 :: ids, nw)
+    end.
+
+  Definition with_hl (s : st) (hl : heap * list (list T)) : st :=
+    {| s_heap := fst hl; s_inds := s_inds s; s_todo := s_todo s; s_log := snd hl; s_proc := s_proc s |}.
+
+  Fixpoint wc_hist (s : st) (created : list nat) (bs : list (list item)) : st * list (list nat) :=
+    match bs with
+    | [] => (s, [])
+    | b :: bs' =>
+        let '(hl, ids, nw) := mk_batch (s_heap s, s_log s) created b in
+        let '(s2, idss) := wc_hist (wc_evaluate (with_hl s hl) ids) (created ++ nw) bs' in
+        (s2, ids :: idss)
+    end.
+
+  Fixpoint g_hist (s : st) (created : list nat) (bs : list (list item)) : option (st * list (list nat)) :=
+    match bs with
+    | [] => Some (s, [])
+    | b :: bs' =>
+        let '(hl, ids, nw) := mk_batch (s_heap s, s_log s) created b in
+        match g_evaluate (with_hl s hl) ids with
+        | None => None
+        | Some s1 => match g_hist s1 (created ++ nw) bs' with
+                     | None => None
+                     | Some (s2, idss) => Some (s2, ids :: idss)
+                     end
+        end
+    end.
+
+  (* static well-formedness of a history: within a batch the Old indices are distinct and refer to
+     designs created in earlier batches *)
+  Fixpoint olds (items : list item) : list nat :=
+    match items with [] => [] | Old k :: r => k :: olds r | _ :: r => olds r end.
+  Fixpoint new_vecs (items : list item) : list (list T) :=
+    match items with [] => [] | New v :: r => v :: new_vecs r | Pre v :: r => v :: new_vecs r | Old _ :: r => new_vecs r end.
+  Fixpoint wf_hist (ncreated : nat) (bs : list (list item)) : Prop :=
+    match bs with
+    | [] => True
+    | b :: bs' => NoDup (olds b) /\ Forall (fun k => k < ncreated) (olds b) /\
+                  wf_hist (ncreated + length (new_vecs b)) bs'
+    end.
+  (* the vector of an item, given the vectors of the designs created so far *)
+  Definition item_vec (cvecs : list (list T)) (it : item) : list T :=
+    match it with New v => v | Pre v => v | Old k => nth k cvecs [] end.
+  Fixpoint hist_vecs (cvecs : list (list T)) (bs : list (list item)) : list (list (list T)) :=
+    match bs with
+    | [] => []
+    | b :: bs' => map (item_vec cvecs) b :: hist_vecs (cvecs ++ new_vecs b) bs'
+    end.
 End Evaluators.
 
 Arguments SV {T} _.
 Arguments SB {T} _.
+Arguments New {T} _.
+Arguments Pre {T} _.
+Arguments Old {T} _.
 
 
